@@ -185,9 +185,11 @@ fn create_tour(
                         _ => 0.,
                     };
 
-                let activity_arrival = parking + act.schedule.arrival + commute.forward.duration;
-                let service_start = activity_arrival.max(act.place.time.start);
-                let waiting = service_start - activity_arrival;
+                // NOTE parking is a part of the cluster's service time: it starts when waiting (if any) is over
+                let activity_arrival = act.schedule.arrival + commute.forward.duration;
+                let parking_start = activity_arrival.max(act.place.time.start);
+                let service_start = parking_start + parking;
+                let waiting = parking_start - activity_arrival;
                 let serving = act.place.duration - parking;
                 let service_end = service_start + serving;
                 let activity_departure = service_end;
@@ -214,10 +216,7 @@ fn create_tour(
                         load: prev_load.as_vec(),
                         distance,
                         parking: if parking > 0. {
-                            Some(Interval {
-                                start: format_time(act.schedule.arrival),
-                                end: format_time(act.schedule.arrival + parking),
-                            })
+                            Some(Interval { start: format_time(parking_start), end: format_time(parking_start + parking) })
                         } else {
                             None
                         },
@@ -240,7 +239,7 @@ fn create_tour(
                     activity_type: activity_type.clone(),
                     location: Some(coord_index.get_by_idx(act.place.location).unwrap()),
                     time: Some(Interval {
-                        start: format_time(activity_arrival.max(act.place.time.start)),
+                        start: format_time(service_start),
                         end: format_time(activity_departure),
                     }),
                     job_tag,
